@@ -3,9 +3,9 @@ CONSTANTS
   Commits = {"c1", "c2"}
   BuildKeys = {"k1", "k2"}
   States = {"SUCCESSFUL", "FAILED", "INPROGRESS"}
-  CacheSize = 1
+  CacheSize = 2
   MaxSteps = 5
-  PollAllKeys = FALSE
-  GuardedStore = FALSE
+  PollAllKeys = TRUE
+  GuardedStore = TRUE
 INVARIANT GreenNeverDowngraded
 CHECK_DEADLOCK FALSE
